@@ -216,6 +216,9 @@ pub fn unit_source(d: &Decl, no_std: bool, extra: &str) -> String {
             }
         }
     }
+    if d.dynamic_bound() {
+        o.push_str("static DLIM: ::core::sync::atomic::AtomicI32 = ::core::sync::atomic::AtomicI32::new(10);\npub fn dyn_max() -> i32 { DLIM.load(::core::sync::atomic::Ordering::SeqCst) }\n");
+    }
     if d.stateful_default() {
         let body = &d.default.as_ref().unwrap().neutral_text;
         let ii = d.inner.ty();
@@ -274,6 +277,65 @@ fn feats(f: &[&str]) -> Vec<String> {
 }
 
 const ALL: &[&str] = &["serde", "regex", "arbitrary", "new_unchecked"];
+
+// ------------------------------------------------------------------------------------ C16 scope
+
+/// The message and the validator are generated from the same bound tokens; they must also resolve them in the
+/// same scope. A newtype declared inside a function body, whose bound names a constant that exists at module
+/// level and - with another value - locally: whichever of the two the validator enforces, the message (and the
+/// FromStr error embedding it) has to state that one. Decided by a generated `#[test]` per unit.
+pub fn c16_scope_units() -> Vec<Unit> {
+    let mut out = vec![];
+    let header = "#![allow(unused, non_snake_case, non_camel_case_types, clippy::all)]\nuse nutype::nutype;\nuse crate::prelude::*;\n";
+    let cases: Vec<(&str, &str, String)> = vec![
+        (
+            "int-upper",
+            "pub const LIMIT: i32 = 10;",
+            "const LIMIT: i32 = 20;\n    #[nutype(validate(less_or_equal = LIMIT), derive(Debug, FromStr))]\n    struct T(i32);\n    let enforced_module = T::try_new(15).is_err();\n    let msg = T::try_new(1000).unwrap_err().to_string();\n    let parse_msg = \"1000\".parse::<T>().unwrap_err().to_string();\n    let (m, l) = (\"10\", \"20\");".to_string(),
+        ),
+        (
+            "int-lower-expr",
+            "pub const FLOOR: i64 = 10;",
+            "const FLOOR: i64 = 20;\n    #[nutype(validate(greater = FLOOR + 0), derive(Debug, FromStr))]\n    struct T(i64);\n    let enforced_module = T::try_new(15).is_ok();\n    let msg = T::try_new(-1000).unwrap_err().to_string();\n    let parse_msg = \"-1000\".parse::<T>().unwrap_err().to_string();\n    let (m, l) = (\"10\", \"20\");".to_string(),
+        ),
+        (
+            "float-lower",
+            "pub const FLOOR: f64 = 10.0;",
+            "const FLOOR: f64 = 20.0;\n    #[nutype(validate(greater_or_equal = FLOOR), derive(Debug, FromStr))]\n    struct T(f64);\n    let enforced_module = T::try_new(15.0).is_ok();\n    let msg = T::try_new(-1000.0).unwrap_err().to_string();\n    let parse_msg = \"-1000\".parse::<T>().unwrap_err().to_string();\n    let (m, l) = (\"10\", \"20\");".to_string(),
+        ),
+        (
+            "string-min",
+            "pub const MIN_LEN: usize = 2;",
+            "const MIN_LEN: usize = 5;\n    #[nutype(validate(len_char_min = MIN_LEN), derive(Debug, FromStr))]\n    struct T(String);\n    let enforced_module = T::try_new(\"abc\").is_ok();\n    let msg = T::try_new(\"\").unwrap_err().to_string();\n    let parse_msg = \"\".parse::<T>().unwrap_err().to_string();\n    let (m, l) = (\"2\", \"5\");".to_string(),
+        ),
+        (
+            "string-max",
+            "pub const MAX_LEN: usize = 3;",
+            "const MAX_LEN: usize = 6;\n    #[nutype(validate(len_char_max = MAX_LEN), derive(Debug, FromStr))]\n    struct T(String);\n    let enforced_module = T::try_new(\"abcde\").is_err();\n    let msg = T::try_new(\"abcdefghijk\").unwrap_err().to_string();\n    let parse_msg = \"abcdefghijk\".parse::<T>().unwrap_err().to_string();\n    let (m, l) = (\"3\", \"6\");".to_string(),
+        ),
+    ];
+    for (name, module_const, body) in cases {
+        let test = format!(
+            "{module_const}\n#[test]\nfn message_states_the_enforced_bound() {{\n    {body}\n    let (enforced, other) = if enforced_module {{ (m, l) }} else {{ (l, m) }};\n    assert!(msg.contains(enforced) && !msg.contains(other), \"validator enforces {{enforced}} but the message says: {{msg}}\");\n    assert!(parse_msg.contains(enforced) && !parse_msg.contains(other), \"validator enforces {{enforced}} but the FromStr error says: {{parse_msg}}\");\n}}\n"
+        );
+        out.push(Unit {
+            id: String::new(),
+            class: format!("scope:{name}"),
+            features: feats(ALL),
+            source: format!("{header}{test}"),
+            expect: Expect::Accept,
+            expect_errors: vec![],
+            tests_must_fail: vec![],
+            tests_must_pass: vec!["message_states_the_enforced_bound".into()],
+            decl: format!("(inside a fn body, {module_const} shadowed locally) {}", name),
+            nontrivial: true,
+        });
+    }
+    for (i, u) in out.iter_mut().enumerate() {
+        u.id = format!("s{:04}", i + 1);
+    }
+    out
+}
 
 // ------------------------------------------------------------------------------------ C11 premise
 
